@@ -2,7 +2,7 @@
   Driver family `session` (property C04): one long-lived process over a pool of module descriptors.
 
     world                                              → ok      (forget all modules, libs, state)
-    mod <name> <syntaxOk 0|1> <imports> <classes> <vars> <extra>   → ok   (a module on disk)
+    mod <name> <syntaxOk 0|1> <imports> <classes> <vars> <extra> [<keys the renderer always needs>]   → ok   (a module on disk)
         imports  m:n,m:n | -          (n may be empty: bare dependency edge)
         classes  C/f,g>m>B>g,h!;D | - (method `g` calls B.g of module m, method `h` uses an undefined name)
         vars     v:1,u:0 | -          (0 = annotation does not resolve)
@@ -93,6 +93,9 @@ def step' (d : DSt) : List String → DSt × String
   | ["world"] => ({}, "ok")
   | ["mod", name, ok, imps, clss, vars, extra] =>
     ({ d with disk := aset d.disk (s2l name) (parseDesc d.std ok imps clss vars extra) }, "ok")
+  | ["mod", name, ok, imps, clss, vars, extra, always] =>
+    let desc : Desc := { parseDesc d.std ok imps clss vars extra with stdAlways := (splitNonEmpty always ",").map s2l }
+    ({ d with disk := aset d.disk (s2l name) desc }, "ok")
   | ["std", ms, vs] => ({ d with std := ((splitNonEmpty ms ",").map s2l, (splitNonEmpty vs ",").map s2l) }, "ok")
   | ["libs", ls] => ({ d with libs := (splitNonEmpty ls ",").map s2l }, "ok")
   | ["main", m] => ({ d with main := s2l m }, "ok")
